@@ -6,7 +6,7 @@ from vf import fxlog, tables
 UNKNOWN_IDS = [b"ID", b"PE", b"MR", b"\0\0", b"\xff\xff", b"XX", b"ph", b"uh", b"Ps", b"U\0", b"  ", b"\"\\"]
 UD_FX_BEHAVIOURS = {"fx_ok": b"K", "fx_raise": b"R", "fx_none": b"N", "fx_importerror": b"I", "fx_list": b"L",
                     "fx_hostile": b"S", "fx_keyerror": b"E", "fx_release_raise": b"X", "fx_release_none": b"Y",
-                    "fx_release_ok": b"Z"}
+                    "fx_release_ok": b"Z", "fx_raise_empty": b"M", "fx_raise_multiline": b"T"}
 # (creator, comp) pairs served by fixture modules (vf/fixtures/plugins/udparsers)
 FX_UD = [("O", 0xFA00), ("O", 0xFB00), ("B", 0xFA00), ("M", 0xFA00), ("X", 0xFA00), ("H", 0x4158), ("O", 0x00AB)]
 
@@ -20,7 +20,8 @@ def gen_user_section(rng, u, creator, ext=False, flavor=None, fixtures=True, plu
     flavors = ["bmc_json", "bmc_text", "bmc_other", "noparser", "noparser"]
     if fixtures:
         flavors += ["fx_ok", "fx_ok", "fx_raise", "fx_none", "fx_importerror", "fx_list", "fx_hostile", "fx_keyerror",
-                    "fx_badimport", "fx_brokenimport", "fx_release_raise", "fx_release_none", "fx_release_ok"]
+                    "fx_badimport", "fx_brokenimport", "fx_release_raise", "fx_release_none", "fx_release_ok",
+                    "fx_raise_empty", "fx_raise_multiline"]
     flavor = flavor or rng.choice(flavors)
     ver, sub = rng.randrange(256), rng.randrange(256)
     if ext:
@@ -56,8 +57,17 @@ def gen_user_section(rng, u, creator, ext=False, flavor=None, fixtures=True, plu
         expect = [("Data", "textlines", pm.text_reference(raw))]
     elif flavor == "bmc_other":
         eff, comp = "O", 0x2000
-        sub = rng.choice([0, 2, 4, 5, 0x80, 0xFF])
+        sub = rng.choice([0, 2, 2, 4, 5, 0x80, 0xFF])
         payload = pm.gen_payload(rng, u)
+        r = rng.random()
+        if r < 0.2:
+            # bytes that LOOK like padding or a trailer (zero fill plus a small big-endian count, as BMC CBOR data ends;
+            # all-zero payloads): they are payload like any others and belong in the dump
+            pad = rng.randrange(4)
+            payload = payload[:rng.choice([1, 5, 13, 40])] + b"\0" * pad + (rng.choice([pad, pad, 0, 3])).to_bytes(4, "big")
+            payload = payload[len(payload) % 4:] if rng.random() < 0.5 else payload
+        elif r < 0.25:
+            payload = b"\0" * rng.choice([4, 8, 16, 64])
     elif flavor == "noparser":
         eff = creator if not ext else rng.choice("OBHMX?z")
         comp = rng.choice([0x0100, 0x3000, 0x2001, 0x1FFF, 0xFFFF, 0, rng.randrange(0x10000)])
